@@ -129,7 +129,10 @@ SupportedKinds == {
     "assign-const", "assign-expr", "augassign", "tuple-assign", "list-decl", "list-append", "list-remove",
     "ternary-assign", "bare-name", "expr-arith", "led-method", "led-on", "sleep", "serial-write", "serial-write-str",
     "fstring-write", "func-call", "builtin-call", "if-stmt", "if-else", "if-elif", "while-stmt", "for-range",
-    "try-except", "break", "continue", "return-value", "return-bare"}
+    "try-except", "break", "continue", "return-value", "return-bare",
+    \* string literals that contain `#` after escaped quotes (a comment stripper must respect the literal), and a loop
+    \* sitting next to a first assignment in the same `if` (the promotion pass rewrites that branch)
+    "serial-write-hash-dq", "serial-write-hash-sq", "if-hash-literal", "if-first-assign-and-for", "else-first-assign-and-while"}
 OtherKinds == {
     "for-range-2", "for-in-list", "del-name", "del-subscript", "assert", "raise", "raise-bare", "with",
     "chained-assign", "annotated-assign", "subscript-assign", "attribute-assign", "aug-subscript",
